@@ -1,5 +1,5 @@
 From Coq Require Import List NArith ZArith Bool.
-From LTV.C11 Require Import Model ProofsParams Proofs Proofs2.
+From LTV.C11 Require Import Model ProofsParams Proofs Proofs2 ProofsInv ProofsInv2 ProofsInv3 ProofsInv4.
 Import ListNotations.
 Local Open Scope Z_scope.
 
@@ -33,16 +33,39 @@ Theorem set_not_snubbed_accounting : forall v c h h', set_not_snubbed v c h = Ok
 Proof. exact Proofs.eff_set_not_snubbed. Qed.
 Print Assumptions set_not_snubbed_accounting.
 
-Theorem counters_inv_conn_ops_partial : forall nt ng ops s,
-  (0 < nt)%nat -> (0 < ng)%nat -> forallb (fun p => conn_op (fst p)) ops = true ->
-  run (init nt ng) ops = Ok s -> consistent (s_up s) /\ consistent (s_dn s).
-Proof. exact Proofs2.counters_inv_conn_ops_partial. Qed.
-Print Assumptions counters_inv_conn_ops_partial.
+(* counters_inv (lists and counters at torrent and group level, membership <-> status flags,
+   snubbed / uninterested connections hold no slot) for ALL op lists, including close, balance_entry,
+   balance, cycle and tick.  InvL is the record in ProofsInv.v:
+     In c (ids (e_u (getent h t))) <-> c < nc /\ tor_of c = t /\ alive && unchoked
+     In c (ids (e_q (getent h t))) <-> c < nc /\ tor_of c = t /\ alive && queued && !unchoked && !snubbed
+     unchoked -> queued /\ !snubbed;   lists duplicate-free;
+     DownloadInfo counter = |e_u|;  queue counters = sums of the list sizes of the group's torrents;
+     group container = exactly the torrents of the group (no duplicates);
+     download side: queued -> remote has unchoked us. *)
+Theorem counters_inv : forall nt0 ng0 ops s, (0 < nt0)%nat -> (0 < ng0)%nat ->
+  run (init nt0 ng0) ops = Ok s -> InvL Up (s_up s) /\ InvL Dn (s_dn s).
+Proof. exact ProofsInv4.membership_inv. Qed.
+Print Assumptions counters_inv.
 
-Theorem zero_when_lists_empty_partial : forall h, consistent h -> SEu h = 0 -> SEq h = 0 ->
-  h_cur h = 0 /\ SQu h = 0 /\ SQq h = 0 /\ STn h = 0.
-Proof. exact Proofs2.zero_when_lists_empty_partial. Qed.
-Print Assumptions zero_when_lists_empty_partial.
+(* the global counter is re-established (and checked by the code itself) at every tick; its
+   preservation by each single op between ticks is proved for the connection slot and the four
+   per-connection operations above (D unchanged); for close / balance_entry / balance / direct
+   cycle the bookkeeping of the returned counts is not proved: global_counter_partial *)
+Theorem global_counter_partial : forall s rs s', step s OTick rs = Ok s' ->
+  h_cur (s_up s') = fold_left (fun a q => a + q_cu q) (h_qs (s_up s')) 0 /\
+  h_cur (s_dn s') = fold_left (fun a q => a + q_cu q) (h_qs (s_dn s')) 0.
+Proof. exact ProofsInv4.global_counter_after_tick. Qed.
+Print Assumptions global_counter_partial.
+
+Theorem zero_on_close : forall nt0 ng0 ops s, (0 < nt0)%nat -> (0 < ng0)%nat ->
+  run (init nt0 ng0) ops = Ok s ->
+  (forall c, cs_a (getcs (s_up s) c) = false) -> (forall c, cs_a (getcs (s_dn s) c) = false) ->
+  (forall t, (t < nt (s_up s))%nat -> e_q (getent (s_up s) t) = [] /\ e_u (getent (s_up s) t) = [] /\ gettn (s_up s) t = 0) /\
+  (forall g, (g < ng (s_up s))%nat -> q_cu (getq (s_up s) g) = 0 /\ q_cq (getq (s_up s) g) = 0) /\
+  (forall t, (t < nt (s_dn s))%nat -> e_q (getent (s_dn s) t) = [] /\ e_u (getent (s_dn s) t) = [] /\ gettn (s_dn s) t = 0) /\
+  (forall g, (g < ng (s_dn s))%nat -> q_cu (getq (s_dn s) g) = 0 /\ q_cq (getq (s_dn s) g) = 0).
+Proof. exact ProofsInv4.zero_on_close. Qed.
+Print Assumptions zero_on_close.
 
 Theorem limits_new_unchoke_guard_up : forall v c h h', v_dir v = Up -> try_unchoke_new v c h = Ok h' ->
   h' = h \/
